@@ -529,6 +529,18 @@ func parallel(n int, fn func(i int, t *tally), r *ev.Run) {
 
 var ids = []int{0, 1, 255, 256, math.MaxInt32}
 
+// inBase: the path only uses the quick value set.
+func inBase(path []int) bool {
+	for _, v := range path {
+		switch v {
+		case 0, 1, 63, 64, -1, math.MaxInt32:
+		default:
+			return false
+		}
+	}
+	return true
+}
+
 func partEncode(r *ev.Run) {
 	vals := []int{0, 1, 63, 64, -1, math.MaxInt32}
 	if ev.Thorough() {
@@ -567,7 +579,7 @@ func partEncode(r *ev.Run) {
 				t.report(checkEncode(ctx0, pl, "all", t))
 			}
 		}
-		if ev.Thorough() || sel[fmt.Sprint(c.path)] {
+		if sel[fmt.Sprint(c.path)] || (ev.Thorough() && inBase(c.path)) {
 			for _, pl := range two {
 				t.report(checkEncode(ctx, pl, "basic", t))
 			}
@@ -937,7 +949,7 @@ func main() {
 		defer pprof.StopCPUProfile()
 	}
 	r := ev.New("C36", "exploration")
-	r.Rule("encode: ids {0,1,255,256,2^31-1} x every index path of depth 0..3 over {0,1,63,64,-1,2^31-1} (thorough adds -64,-65,MaxInt64,MinInt64) x every payload of <=1 byte through 7 encode APIs + round trip, every 2-byte payload for 8 selected paths (thorough: all paths); shared Serde with all 1290 (id,path) registrations + 2 index-less ids: round trip, every truncation and every single-byte substitution from {00,01,7f,80,ff} of each valid message under its id and under an unregistered id, every byte string of length <=2 (thorough 3) bare and after 5 different magic+id heads; ConfluentHeader.DecodeID/DecodeIndex with maxLength {0,1,5,MaxInt} on every byte string of length <=2 (thorough 3) and on every sequence of <=4 zig-zag varints over a value set incl. MaxInt64/2^62 with tails, truncations and substitutions; distinct = outcome classes (api, verdict, index length, rest length)")
+	r.Rule("encode: ids {0,1,255,256,2^31-1} x every index path of depth 0..3 over {0,1,63,64,-1,2^31-1} (thorough adds -64,-65,MaxInt64,MinInt64) x every payload of <=1 byte through 7 encode APIs + round trip, every 2-byte payload for 8 selected paths (thorough: all paths over the 6-value set); shared Serde with all 1290 (id,path) registrations + 2 index-less ids: round trip, every truncation and every single-byte substitution from {00,01,7f,80,ff} of each valid message under its id and under an unregistered id, every byte string of length <=2 (thorough 3) bare and after 5 different magic+id heads; ConfluentHeader.DecodeID/DecodeIndex with maxLength {0,1,5,MaxInt} on every byte string of length <=2 (thorough 3) and on every sequence of <=4 zig-zag varints over a value set incl. MaxInt64/2^62 with tails, truncations and substitutions; distinct = outcome classes (api, verdict, index length, rest length)")
 	r.Assume("reference encoder/parser written from the Confluent wire-format description (magic 0, 4-byte big-endian id, zig-zag varint message-index array, [0] as single 0 byte)",
 		"inputs that are not byte-for-byte outputs of the reference encoder (non-minimal varints, [0] spelled 02 00) may be rejected or accepted; if accepted the result must equal the reference parse",
 		"DecodeIndex allocates the announced array before reading it; when maxLength does not bound it (0, MaxInt) inputs announcing a count in (16384, 2^46) are skipped (a real allocation of up to terabytes, or the runtime's unrecoverable out-of-memory abort); counts >= 2^46 are run (the runtime refuses them with a recoverable panic)")
